@@ -18,7 +18,7 @@ for D in /verif/seeded/*/; do
   [ -n "$CHECKS" ] || continue
   git -C $R/repo checkout -q -- . ; git -C $R/repo apply $D/patch.diff || { echo "| $S | - | patch does not apply | |" >> $OUT.tmp; continue; }
   for C in $CHECKS; do
-    O=$(cd $R/verif && timeout 1500 ./check $C --tier quick 2>&1); RC=$?
+    O=$(cd $R/verif && SYMX_STOP_ON_VIOLATION=1 timeout 1500 ./check $C --tier quick 2>&1); RC=$?
     V=$(echo "$O" | grep -E '^violation' | head -1 | cut -c1-140 | tr '|' '/')
     echo "| $S | $C | $RC | $V |" >> $OUT.tmp
   done
